@@ -389,6 +389,16 @@ Proof.
     eapply inv4_failed; [exact H4 | reflexivity | cbn; apply orb_true_r].
 Qed.
 
+Lemma inv1234_refuse : forall s b s1, Inv1234 s -> 1 <= n_jobs (c s) -> 1 <= b ->
+  (phase s = StartFirst \/ phase s = StartLoop) -> dispatch_shape s b false s1 true ->
+  Inv1234 (finalize s1 Finished true true).
+Proof.
+  intros s b s1 [H123 H4] Hnj Hb Hph Hsh. split; [eapply inv123_refuse; eassumption|].
+  assert (H4' : Inv4 s1).
+  { eapply inv4_dispatch; try eassumption. left. unfold rem_of. destruct Hph as [-> | ->]; reflexivity. }
+  eapply inv4_failed; [exact H4' | reflexivity | cbn; apply orb_true_r].
+Qed.
+
 Lemma inv1234_close_drain : forall s r, Inv1234 s -> phase s = Draining r -> Inv1234 (abandon (set_out s (jobs s) (jset s) [] false Finished)).
 Proof.
   intros s r [H123 H4] Hp. split; [eapply inv123_close_drain; eassumption | eapply inv4_close_drain; eassumption].
@@ -475,6 +485,8 @@ Proof.
   - exact inv1234_exhaust.
   - exact inv1234_want.
   - exact inv1234_close_try.
+  - intros s b s1 H Hnj Hb Hph Hsh. eapply inv1234_refuse; eauto.
+  - intros s b s1 H Hnj Hb Hph Hsh. eapply inv1234_refuse; eauto.
   - exact inv1234_close_drain.
   - exact inv1234_timeout.
   - exact inv1234_yield.
